@@ -127,7 +127,17 @@ pub fn exec_case<H: Harness>(h: &H, case: &H::Case, record: bool) -> (Option<Vio
             let msg: String = msg.chars().take(300).collect();
             // a panic raised by the harness's own dispatch tables is a harness error, not a finding
             let class = if msg.contains("not in list") || msg.contains("not in this check's list") { "harness" } else { "panic" };
-            Some(Violation::new(class, &loc, format!("uncaught panic at {}: {}", loc, msg)))
+            if msg.contains("exceeded max_steps bound") {
+                // engine T: the controlled scheduler's step budget ran out (a large workload, or an
+                // unfair schedule starving a spin-wait). That decides nothing about the property:
+                // the run is counted as inconclusive, and too many of them fail the check as a
+                // harness error (below), never as a violation.
+                rec.count("inconclusive_step_bound");
+                rec.nontrivial = false;
+                None
+            } else {
+                Some(Violation::new(class, &loc, format!("uncaught panic at {}: {}", loc, msg)))
+            }
         }
     };
     if let Some(v) = &v {
@@ -693,6 +703,16 @@ pub fn search<H: Harness>(h: &H, opts: &Opts, wrap: &(dyn Fn(&mut (dyn FnMut() +
     let mut known_hits: Vec<String> = Vec::new();
     let mut replay_files: Vec<String> = Vec::new();
     // a harness problem reported from inside a case is a harness error, never a violation
+    let inconclusive = agg.counters.get("inconclusive_step_bound").cloned().unwrap_or(0);
+    if inconclusive > 2 && inconclusive * 200 > agg.evaluations {
+        println!(
+            "HARNESS-ERROR: check={} {} of {} runs exhausted the scheduler's step budget (inconclusive): the check cannot decide on this tree",
+            h.name(),
+            inconclusive,
+            agg.evaluations
+        );
+        return 2;
+    }
     let harness_errs: Vec<&(u64, Violation)> = agg.violations.iter().filter(|x| x.1.class == "harness").collect();
     if !harness_errs.is_empty() {
         for (idx, v) in harness_errs.iter().take(3) {
